@@ -82,7 +82,14 @@ def eval_function(fi_node, direction_exprs: set, tt: str) -> list:
             if isinstance(st, ast.If):
                 v = eval_test(st.test, direction_exprs, tt)
                 if v is None:
-                    raise Unknown(f"test `{norm(st.test)}` is not a direction test")
+                    if any(norm(n) in direction_exprs for n in ast.walk(st.test)):
+                        raise Unknown(f"test `{norm(st.test)}` mixes the direction with other conditions")
+                    # a data test (e.g. isinstance(value, list)): both branches are possible, every reachable return counts
+                    a = block(st.body)
+                    b = block(st.orelse) if st.orelse else False
+                    if a and b:
+                        return True
+                    continue
                 if block(st.body if v else st.orelse):
                     return True
                 continue
@@ -213,3 +220,81 @@ def refine_signs(prog: Program, owner_qual: str, nested: str) -> dict:
         if isinstance(n, (ast.Attribute, ast.Subscript)) and isinstance(n.ctx, (ast.Store, ast.Del)):
             inplace = True
     return {"signs": out, "why": why, "func": fi, "inplace": inplace, "tt_param": tt_param, "init": init}
+
+
+# ---------------------------------------------------------------------------------------------
+# sign of an agent transformation, following helper functions (nested closure, module function, inlined)
+# ---------------------------------------------------------------------------------------------
+
+def _copy_with_cost(e: ast.AST, is_agent) -> Optional[int]:
+    """``X.model_copy(update={'cost': (+/-) X.cost})`` with X an agent expression -> sign of the copied cost, else None."""
+    if isinstance(e, ast.Call) and isinstance(e.func, ast.Attribute) and e.func.attr == "model_copy" and is_agent(e.func.value) \
+            and not e.args and len(e.keywords) == 1 and e.keywords[0].arg == "update" and isinstance(e.keywords[0].value, ast.Dict):
+        d = e.keywords[0].value
+        keys = [k.value if isinstance(k, ast.Constant) else None for k in d.keys]
+        if keys == ["cost"]:
+            base = norm(e.func.value)
+            return sign_of(d.values[0], lambda z: isinstance(z, ast.Attribute) and z.attr == "cost" and norm(z.value) == base)
+    return None
+
+
+def agent_value_sign(prog: Program, fi_node, module, e: ast.AST, is_agent, dir_names: set, tt: str, depth: int = 4):
+    """Sign (+1 | -1) of the cost of the agent denoted by ``e`` relative to the agent(s) accepted by ``is_agent``, under
+    direction tt; ``by_copy`` tells whether a negated agent is a new object.  -> (sign | None, by_copy, why)"""
+    from .flow import origin
+    if depth <= 0:
+        return None, False, "too deep"
+    try:
+        e = eval_expr(origin(fi_node, e) if isinstance(e, ast.Name) else e, dir_names, tt)
+    except Unknown as exc:
+        return None, False, str(exc)
+    if isinstance(e, ast.Name):
+        e2 = origin(fi_node, e)
+        if e2 is not e:
+            return agent_value_sign(prog, fi_node, module, e2, is_agent, dir_names, tt, depth - 1)
+    if is_agent(e):
+        return +1, True, ""
+    if isinstance(e, ast.IfExp):
+        a = agent_value_sign(prog, fi_node, module, e.body, is_agent, dir_names, tt, depth - 1)
+        b = agent_value_sign(prog, fi_node, module, e.orelse, is_agent, dir_names, tt, depth - 1)
+        if a[0] is not None and a[0] == b[0]:
+            return a[0], a[1] and b[1], ""
+        return None, False, f"`{norm(e.test)}` decides the sign"
+    c = _copy_with_cost(e, is_agent)
+    if c is not None:
+        return c, True, ""
+    if isinstance(e, ast.Call) and isinstance(e.func, ast.Name):
+        # helper: nested closure of the enclosing function or a module-level function
+        callee = None
+        for n in ast.walk(fi_node):
+            if isinstance(n, ast.FunctionDef) and n.name == e.func.id and n is not fi_node:
+                callee = n
+        if callee is None:
+            t = prog.resolve_name(module, e.func.id)
+            if t.kind == "func" and t.ref in prog.functions:
+                callee = prog.functions[t.ref].node
+        if callee is not None:
+            params = [a.arg for a in callee.args.args]
+            if len(e.args) != len(params) or e.keywords:
+                return None, False, f"call `{norm(e, 50)}` does not bind the helper's parameters positionally"
+            agent_params = {p for p, a in zip(params, e.args) if is_agent(a)}
+            dir_params = {p for p, a in zip(params, e.args) if isinstance(a, ast.Name) and a.id in dir_names}
+            if len(agent_params) != 1:
+                return None, False, f"`{norm(e, 50)}` is not applied to the agent"
+            ap = next(iter(agent_params))
+            try:
+                rets = eval_function(callee, dir_params, tt)
+            except Unknown as exc:
+                return None, False, f"{callee.name}: {exc}"
+            inplace = any(isinstance(n, (ast.Attribute, ast.Subscript)) and isinstance(n.ctx, (ast.Store, ast.Del)) for n in ast.walk(callee))
+            signs = set()
+            for r in rets:
+                if r is None:
+                    signs.add(None)
+                    continue
+                s_, _bc, _w = agent_value_sign(prog, callee, module, r, lambda z: isinstance(z, ast.Name) and z.id == ap, dir_params, tt, depth - 1)
+                signs.add(s_)
+            if len(signs) == 1 and None not in signs:
+                return signs.pop(), not inplace, ("" if not inplace else f"{callee.name} mutates the agent it is given")
+            return None, not inplace, f"{callee.name} returns values of different / unknown sign under {tt}"
+    return None, False, f"`{norm(e, 60)}` is neither the agent nor a copy with (+/-) its cost"
